@@ -290,6 +290,7 @@ static void drawTub(Rng& r, Cfg& c, bool th)
   double L = 10.;
   int nvar = r.coin(0.35) ? 2 : 1;
   std::vector<std::string> allowed(STRUCTS, STRUCTS + 8);
+  if (r.coin(0.4)) allowed = {"GAUSSIAN", "CUBIC", "SINCARD", "BESSELJ"}; // smooth band processes (see krigResidual)
   c.model = drawModel(r, c.ndim, nvar, L, allowed, 2, true);
   if (r.coin(0.65)) drawGridTarget(r, c, L, th ? 400 : 64);
   else drawPointTarget(r, c, L, r.irange(5, th ? 120 : 30));
@@ -303,7 +304,7 @@ static void drawTub(Rng& r, Cfg& c, bool th)
     c.radius      = r.coin(0.5) ? 1.234e30 : L * r.uni(0.8, 2.);
   }
   c.nbsimu = r.irange(1, 5);
-  c.nbtuba = r.pick(std::vector<int>{1, 2, 3, 5, 10, 30, 100, 200});
+  c.nbtuba = r.pick(std::vector<int>{1, 2, 3, 5, 10, 30, 100, 100, 200, 200});
   c.seed   = drawSeed(r);
   c.gseed  = c.seed <= 0 ? drawGSeed(r) : 0;
   c.sig    = fmt("simtub:ndim=%d:nvar=%d:%s:%s:%s:drift=%d:ncov=%d:c0=%s:nbs=%d:nbt=%d:seed=%s", c.ndim, nvar,
@@ -414,6 +415,7 @@ static void drawGibbs(Rng& r, Cfg& c, bool th)
       case 9: c.U[k] = -r.uni(2.5, 4.); break;
     }
   }
+  for (int iv = 0; iv < nvar; iv++) c.L[iv * n] = c.U[iv * n] = 1.234e30; // sample 0 stays free (see caseGibbs)
   c.nburn   = r.irange(3, 15);
   c.niter   = c.nburn + r.irange(5, th ? 100 : 40);
   c.gMoving = r.coin(0.3);
@@ -946,6 +948,17 @@ static void ranksOracle(Ctx& c, const Cfg& cfg, const Out& A, int nvar, int nbsi
 static void krigResidual(Ctx& c, const Cfg& cfg, const Out& A, const std::string& tk, const std::vector<char>& freeS)
 {
   if (cfg.nbtuba < 10) { c.skip("krig-residual:few-bands"); return; }
+  // structures with a linear behaviour at the origin are simulated by 1-D jump processes (CalcSimuTurningBands:
+  // _migrationInit for exponential / matern / stable, _dilutionInit for spherical): over the 2e-4 separation between a
+  // target and its datum a band either does not move or jumps by ~2 sqrt(sill/nbtuba), i.e. the increment is far from Gaussian
+  // and a few simultaneous jumps exceed any multiple of sK. The oracle is restricted to the structures simulated by smooth
+  // processes (spectral method: gaussian, sincard, besselj; dilution by a continuous function: cubic)
+  for (auto& cv : cfg.model.covs)
+    if (cv.type != "GAUSSIAN" && cv.type != "CUBIC" && cv.type != "SINCARD" && cv.type != "BESSELJ" && cv.type != "NUGGET")
+    {
+      c.skip("krig-residual:jump-process-structure");
+      return;
+    }
   int nvar = cfg.model.nvar, nbs = cfg.nbsimu, nd = cfg.ndat;
   defineDefaultSpace(ESpaceType::RN, cfg.ndim);
   auto target = buildTarget(cfg);
@@ -1187,10 +1200,13 @@ static void caseGibbs(Rng& r, Ctx& c, const Cfg& cfg)
   }
   // equalities are reproduced exactly (AGibbs::_isConstraintTight: "data is a hard data")
   // free samples = not an equality in any variable
+  // "different realisation" is only asserted on samples without any constraint (continuous conditional law): under
+  // constraints that the model can hardly satisfy law_gaussian_between_bounds degenerates to an end of the interval
+  // (total <= 0 branch), and two realisations may then legitimately coincide. The generator leaves sample 0 unconstrained.
   std::vector<char> freeS(n, 1);
   for (int i = 0; i < n; i++)
     for (int iv = 0; iv < nvar; iv++)
-      if (!undef(cfg.L[iv * n + i]) && cfg.L[iv * n + i] == cfg.U[iv * n + i]) freeS[i] = 0;
+      if (!undef(cfg.L[iv * n + i]) || !undef(cfg.U[iv * n + i])) freeS[i] = 0;
   // ranks: compare columns pairwise regardless of the variable they belong to (two columns may never be identical)
   {
     int ncol = nvar * nbs;
